@@ -61,6 +61,14 @@ Neigh(v, of) == [k |-> "neigh", v |-> v, of |-> of]                             
 NeighOf(v, node) == [k |-> "neighof", v |-> v, node |-> node]                        \* (_, v) in neigh_edges_of("N1", G): the node by its name
 Zip(a, b, arr1, arr2) == [k |-> "zip", v |-> a, v2 |-> b, arr |-> arr1, arr2 |-> arr2]
 SetOp(v, fn, arr1, arr2) == [k |-> "setop", v |-> v, fn |-> fn, arr |-> arr1, arr2 |-> arr2]
+\* family "compose": an iterable function applied to the result of another one.  A tuple binder is flat
+\* ((p, i), never ((a, b), i)), so the name that receives a tuple (p) is bound but cannot be read.
+EnumZip(p, i, arr1, arr2) == [k |-> "enumzip", v |-> p, v2 |-> i, arr |-> arr1, arr2 |-> arr2]      \* (p, i) in enumerate(zip(A, B))
+EnumEnum(p, i, arr) == [k |-> "enumenum", v |-> p, v2 |-> i, arr |-> arr]                              \* (p, i) in enumerate(enumerate(A))
+ZipEnum(a, p, arr1, arr2) == [k |-> "zipenum", v |-> a, v2 |-> p, arr |-> arr1, arr2 |-> arr2]       \* (a, p) in zip(A, enumerate(B))
+EnumSet(e, i, fn, arr1, arr2) == [k |-> "enumset", v |-> e, v2 |-> i, fn |-> fn, arr |-> arr1, arr2 |-> arr2]  \* (e, i) in enumerate(union(A, B))
+ZipSet(a, b, fn, arr1, arr2, arr3) == [k |-> "zipset", v |-> a, v2 |-> b, fn |-> fn, arr |-> arr1, arr2 |-> arr2, arr3 |-> arr3]  \* (a, b) in zip(A, union(B, C))
+EnumRows(r, i) == [k |-> "enumrows", v |-> r, v2 |-> i]                                                \* (r, i) in enumerate(M2)
 RngTo(v, lo, hiname) == [k |-> "rangeto", v |-> v, lo |-> lo, hiname |-> hiname]     \* i in lo..j  (dependent bound)
 
 \* family "alias": the second names the language gives its built-ins - V, E, N, enum for nodes, edges,
@@ -88,6 +96,12 @@ BinderText(b) ==
      [] b.k = "neighof" -> "(_, " \o b.v \o ") in " \o (IF Short THEN "N_of" ELSE "neigh_edges_of") \o "(\"" \o b.node \o "\", G)"
      [] b.k = "zip" -> "(" \o b.v \o ", " \o b.v2 \o ") in zip(" \o b.arr \o ", " \o b.arr2 \o ")"
      [] b.k = "setop" -> b.v \o " in " \o b.fn \o "(" \o b.arr \o ", " \o b.arr2 \o ")"
+     [] b.k = "enumzip" -> "(" \o b.v \o ", " \o b.v2 \o ") in " \o FnName("enumerate") \o "(zip(" \o b.arr \o ", " \o b.arr2 \o "))"
+     [] b.k = "enumenum" -> "(" \o b.v \o ", " \o b.v2 \o ") in " \o FnName("enumerate") \o "(" \o FnName("enumerate") \o "(" \o b.arr \o "))"
+     [] b.k = "zipenum" -> "(" \o b.v \o ", " \o b.v2 \o ") in zip(" \o b.arr \o ", " \o FnName("enumerate") \o "(" \o b.arr2 \o "))"
+     [] b.k = "enumset" -> "(" \o b.v \o ", " \o b.v2 \o ") in " \o FnName("enumerate") \o "(" \o b.fn \o "(" \o b.arr \o ", " \o b.arr2 \o "))"
+     [] b.k = "zipset" -> "(" \o b.v \o ", " \o b.v2 \o ") in zip(" \o b.arr \o ", " \o b.fn \o "(" \o b.arr2 \o ", " \o b.arr3 \o "))"
+     [] b.k = "enumrows" -> "(" \o b.v \o ", " \o b.v2 \o ") in " \o FnName("enumerate") \o "(M2)"
 RECURSIVE JoinS(_, _, _)
 JoinS(s, i, sep) == IF i > Len(s) THEN "" ELSE (IF i > 1 THEN sep ELSE "") \o s[i] \o JoinS(s, i + 1, sep)
 BindersText(bs) == JoinS([i \in 1..Len(bs) |-> BinderText(bs[i])], 1, ", ")
@@ -125,6 +139,14 @@ Bind(b, env) ==
      [] b.k = "neighof" -> LET es == OutEdges(b.node) IN [j \in 1..Len(es) |-> env @@ (b.v :> NodeB(es[j].v))]
      [] b.k = "zip" -> [j \in 1..MinOf(Len(ArrOf(b.arr)), Len(ArrOf(b.arr2))) |-> env @@ (b.v :> NumB(ArrOf(b.arr)[j])) @@ (b.v2 :> NumB(ArrOf(b.arr2)[j]))]
      [] b.k = "setop" -> LET q == SetVal(b.fn, ArrOf(b.arr), ArrOf(b.arr2)) IN [j \in 1..Len(q) |-> env @@ (b.v :> NumB(q[j]))]
+     \* enumerate pairs EVERY element - a number, a pair, a row - with its position
+     [] b.k = "enumzip" -> [j \in 1..MinOf(Len(ArrOf(b.arr)), Len(ArrOf(b.arr2))) |-> env @@ (b.v :> ArrB(<<>>)) @@ (b.v2 :> NumB(j - 1))]
+     [] b.k = "enumenum" -> [j \in 1..Len(ArrOf(b.arr)) |-> env @@ (b.v :> ArrB(<<>>)) @@ (b.v2 :> NumB(j - 1))]
+     [] b.k = "zipenum" -> [j \in 1..MinOf(Len(ArrOf(b.arr)), Len(ArrOf(b.arr2))) |-> env @@ (b.v :> NumB(ArrOf(b.arr)[j])) @@ (b.v2 :> ArrB(<<>>))]
+     [] b.k = "enumset" -> LET q == SetVal(b.fn, ArrOf(b.arr), ArrOf(b.arr2)) IN [j \in 1..Len(q) |-> env @@ (b.v :> NumB(q[j])) @@ (b.v2 :> NumB(j - 1))]
+     [] b.k = "zipset" -> LET q == SetVal(b.fn, ArrOf(b.arr2), ArrOf(b.arr3)) IN
+                          [j \in 1..MinOf(Len(ArrOf(b.arr)), Len(q)) |-> env @@ (b.v :> NumB(ArrOf(b.arr)[j])) @@ (b.v2 :> NumB(q[j]))]
+     [] b.k = "enumrows" -> [j \in 1..Len(MatM) |-> env @@ (b.v :> ArrB(MatM[j])) @@ (b.v2 :> NumB(j - 1))]
 RECURSIVE Flat(_, _)
 Flat(ss, i) == IF i > Len(ss) THEN <<>> ELSE ss[i] \o Flat(ss, i + 1)
 RECURSIVE EnvsFrom(_, _, _)
@@ -316,7 +338,23 @@ RowsMixed == {Row(a, <<Rng("i", 0, 2), Rng("j", 0, 2)>>, Term("y", <<Ix("i", 0),
 AggCoefs == {Agg(fn, arr, by) : fn \in {"sum", "avg", "min", "max"}, arr \in {"Z4", "A1"}, by \in {"elem", "pos"}}
 RowsAgg == {Row("none", <<>>, Term("x", <<Ix("i", 0)>>, cf), <<>>, c, 20, n, "i", <<Rng("i", 0, 2)>>) : cf \in AggCoefs, c \in {"le", "ge"}, n \in BOOLEAN}
            \cup {Row("sum", <<Rng("i", 1, 3)>>, Term("x", <<Ix("i", 0)>>, cf), <<>>, "le", 30, FALSE, "i", <<>>) : cf \in AggCoefs}
+\* compositions of the iterable functions
+ComposeBinders == {EnumZip("p", "i", a1, a2) : a1 \in {"A1", "W2"}, a2 \in {"A1", "W2", "D4", "E0"}}
+                  \cup {EnumEnum("p", "i", a) : a \in {"A1", "W2", "E0", "D4"}}
+                  \cup {EnumSet("e", "i", fn, a1, a2) : fn \in {"union", "intersection", "difference"}, a1 \in {"A1", "D4"}, a2 \in {"W2", "D4"}}
+ComposeTerms == {Term("x", <<Ix("i", 0)>>, One), Term("x", <<Ix("i", 0)>>, Val("i")), Term("x", <<Ix("i", 1)>>, Lit(2))}
+RowsCompose == {Row(a, <<b>>, t, <<>>, c, 7, FALSE, "i", <<>>) : a \in {"sum", "max"}, b \in ComposeBinders, t \in ComposeTerms, c \in {"le", "ge"}}
+               \cup {Row("none", <<>>, t, <<>>, "le", 5, n, "i", <<b>>) : b \in ComposeBinders, t \in ComposeTerms, n \in BOOLEAN}
+               \cup {Row(a, <<EnumSet("e", "i", fn, "A1", "D4")>>, Term("x", <<Ix("i", 0)>>, Val("e")), <<>>, "le", 9, FALSE, "i", <<>>)
+                        : a \in {"sum", "min"}, fn \in {"union", "intersection", "difference"}}
+               \cup {Row(a, <<ZipEnum("a", "p", a1, a2)>>, Term("x", <<Ix("a", 0)>>, cf), <<>>, "le", 8, FALSE, "i", <<>>)
+                        : a \in {"sum", "max"}, a1 \in {"A1", "W2"}, a2 \in {"A1", "W2", "D4"}, cf \in {One, Val("a")}}
+               \cup {Row(a, <<ZipSet("a", "b", fn, a1, "A1", "D4")>>, Term("y", <<Ix("a", 0), Ix("b", 0)>>, Val("b")), <<>>, "le", 8, FALSE, "i", <<>>)
+                        : a \in {"sum"}, fn \in {"union", "intersection", "difference"}, a1 \in {"A1", "W2"}}
+               \cup {Row("sum", <<ElemsOf("e", "r")>>, Term("y", <<Ix("i", 0), Ix("e", 0)>>, cf), <<>>, "le", 6, n, "i", <<EnumRows("r", "i")>>) : cf \in {One, Val("e")}, n \in BOOLEAN}
+               \cup {Row("sum", <<EnumRows("r", "i"), ElemsOf("e", "r")>>, Term("y", <<Ix("i", 0), Ix("e", 0)>>, Val("i")), <<>>, "ge", 1, FALSE, "i", <<>>)}
 RowSet == CASE Family = "prod" -> RowsProd
+            [] Family = "compose" -> RowsCompose
             [] Family = "mixed" -> RowsMixed
             [] Family = "scope" -> RowsScope
             [] Family = "logic" -> RowsLogic
@@ -325,8 +363,8 @@ RowSet == CASE Family = "prod" -> RowsProd
             [] Family = "enum" -> RowsEnum \cup RowsTwo
             [] Family = "graph" -> RowsGraph
             [] Family = "agg" -> RowsAgg
-            [] Family = "alias" -> RowsGraph \cup RowsEnum \cup RowsNeigh \cup RowsLogic \cup RowsFor1
-            [] OTHER -> RowsFor1 \cup RowsSum1 \cup RowsEnum \cup RowsTwo \cup RowsGraph \cup RowsProd \cup RowsLogic \cup RowsSets \cup RowsNeigh \cup RowsMixed
+            [] Family = "alias" -> RowsGraph \cup RowsEnum \cup RowsNeigh \cup RowsLogic \cup RowsFor1 \cup RowsCompose
+            [] OTHER -> RowsFor1 \cup RowsSum1 \cup RowsEnum \cup RowsTwo \cup RowsGraph \cup RowsProd \cup RowsLogic \cup RowsSets \cup RowsNeigh \cup RowsMixed \cup RowsCompose
 
 \* ---- the machine -----------------------------------------------------------------
 \* a program = an objective row template (aggregated) + up to MaxRows row templates
